@@ -386,7 +386,7 @@ func wInput(wc *wCase, i int) map[string]any {
 
 var wRuleCommon = "graph-biased generated models (recursive usersets and TTUs, interlocking tuple cycles, rewrite-only cycles, TTUs over 1-3 parent types, wildcards in and behind cycles, " +
 	"intersections/exclusions on and next to cycles); each model is built by the public Build (Go map order, repeated) and, through the verif hook, under forced depth-first start orders " +
-	"(all permutations of the non-terminal nodes for small graphs, sampled + every node as first root otherwise); the Lean specification (Spec/Weights.lean, run by the driver) gives verdict, weights and wildcard sets. "
+	"(all permutations of the non-terminal nodes for small graphs, sampled + every node as first root otherwise; each forced order three times; one model in eight is a small web of tuple cycles); the Lean port of AssignWeights (Model/WAssign.lean) is compared per forced order on weights and wildcards of every node and edge (corr:wassign); the Lean specification (Spec/Weights.lean, run by the driver) gives verdict, weights and wildcard sets. "
 
 func init() {
 	props["C05"] = func(c *Ctx) {
